@@ -16,14 +16,24 @@ What the translation is (and what it refuses):
     `rotate_right(k)` = the rotation helper named in the kernel spec, `as` = `.toUIntN`.  CHECKED `+ - *` on words is
     only accepted when the kernel spec lists it in `checked_ok` (it is then rendered as the wrapping operation and the
     absence of overflow is a separate theorem of the unit, named in the spec's doc) — otherwise TranslateError;
-  * signed types `i8/i16/i32/i64` are `Int` ("int" backend): `+ - *` mathematical or (monadic kernels) checked
-    binds `← add64 a b`; `>>` = floor division by `2^k`; `as iN` narrowing = two's-complement wrap, written out;
+  * signed types `i8/i16/i32/i64` are `Int` (mode="int"): `+ - *` mathematical or (monadic kernels) checked binds
+    `← add64 a b` in the evaluation order of the Rust expression (a left-to-right sum of effect-free terms may be rendered
+    `← sum64 [..]`); `>>` = floor division by `2^k`; `<<`, `as iN` narrowing = two's-complement wrap, written out;
+    `x & (2^k-1)` = `% 2^k`; `(x | y) as u8` = OR of the low bytes;
+  * mode="nat": unsigned words as `Nat` for `& | ^ >>` only (e.g. `Poly1305::new`); mode="natopt" (monadic): unsigned
+    integers as `Nat`, every checked `+ - * / %` a bind (`add32`, `subU`, `remU`, …), narrowing casts `% 2^w`
+    (e.g. Argon2 `index_alpha`);
   * `if c {..} [else {..}]` statements duplicate the continuation (`if c then <then; rest> else <else; rest>`),
     `assert!/assert_eq!` guard the continuation (`if c then … else <panic>`), `match <e> { lit => …, _ => … }` is an
     `if` chain; `unreachable!()` / `panic!()` are the panic value of the kernel;
   * constant-bound `for i in a..b` loops are unrolled with `i` substituted; `for _ in 0..n` over a state is emitted
-    through the loop combinator named by the spec; `for <pat> in <iter>` over `.iter()/.zip()/.rev()/.iter_mut()`
-    becomes `List.foldl` / `List.zipWith` (see `Tr.for_iter`);
+    through the loop combinator named by the spec (`loop_fn`), `for i in 0..N` over one buffer as
+    `(List.finRange N).foldl <step>` where <step> is the kernel translated from the same loop body (`iloops`);
+    `for <pat> in <iter>` over `.iter()/.zip()/.rev()/.iter_mut()` becomes `List.foldl` / `List.zipWith` (`Tr.for_iter`;
+    zips are only accepted between lists of the same length symbol, learnt from the types or an `assert_eq!` on `.len()`);
+  * `X[a..b]` with constant bounds is guarded once per straight-line run by `b ≤ X.length` (else the panic value) unless the
+    length is known from an enclosing `X.len() == n` test; `Vector` indexing leaves the bound to Lean (a possible
+    out-of-bounds index makes the GENERATED file fail to build);
   * positional `macro_rules!` macros (single arm, `$x:ident|expr|literal` parameters) are either expanded in place or
     called as the separately translated function `<macro>_src` (the parameters the body assigns are returned as a tuple
     and re-bound at the call site) — chosen per kernel by `macro_fns`.
@@ -376,7 +386,10 @@ class MK:
         self.file = kw["file"]; self.fn = kw["fn"]; self.scope = kw.get("scope")
         self.lean_name = kw["lean_name"]; self.params = kw["params"]; self.ret_type = kw["ret_type"]
         self.doc = kw.get("doc", "")
-        self.env = dict(kw.get("env", {})); self.consts = dict(kw.get("consts", {}))
+        self.env = dict(kw.get("env", {}))
+        c = kw.get("consts", {})
+        self.consts_fn = c if callable(c) else None          # a function: evaluated at translation time (values read from the source)
+        self.consts = {} if callable(c) else dict(c)
         self.calls = dict(kw.get("calls", {})); self.methods = dict(kw.get("methods", {}))
         self.ctors = dict(kw.get("ctors", {})); self.fields = dict(kw.get("fields", {}))
         self.stores = dict(kw.get("stores", {}))
@@ -724,6 +737,11 @@ class Tr:
             inner = self.ex(e[1], st, to if e[1][0] == "lit" and e[1][2] is None else None, out, ind)
             return self.cast(inner, to)
         if k == "bin":
+            if self.k.mode == "natopt" and want is not None and self.is_word(self.norm_ty(want)) and self.is_const_int(e, st):
+                n = self.const_int(e, st)             # constant expression (literals / integer consts): evaluated by rustc, cannot panic at run time
+                if not 0 <= n < 2 ** INT_TYPES[self.norm_ty(want)]:
+                    raise TranslateError("constant expression out of range")
+                return V(str(n), self.norm_ty(want), True)
             if self.k.mode == "int" and self.is_const_int(e, st) and want is not None and self.lit_only(e):
                 ty = self.norm_ty(want)
                 n = self.const_int(e, st)
@@ -1283,7 +1301,8 @@ class Tr:
             st.vars[name] = [self.atomize(v, f"{name}_{j}", st, out, ind) for j, v in enumerate(vs)]
             st.scopes[-1].add(name)
             return rest(st, out, ind)
-        if init[0] in ("if", "match") and (self.has_slice_or_diverge(init) or not self.value_branches(init)):
+        if init[0] in ("if", "match") and (self.has_slice_or_diverge(init) or not self.value_branches(init) or self.k.monadic):
+            # (monadic kernels: a branch may contain checked operations, which must stay inside their branch)
             return self.let_branching(("var", name), ty, init, st, out, ind, rest)
         if init[0] in ("path", "field", "index", "deref", "paren"):
             pv = None
@@ -1937,6 +1956,101 @@ class Tr:
         return False
 
 
+class NatTr(Tr):
+    """mode="nat": unsigned words as `Nat` for the operators that cannot leave the range of their type (`& | ^ >>`, widening
+    casts); everything else is refused (the Nat backends of kernel_translate.py cover arithmetic)"""
+
+    def ex(self, e, st, want=None, out=None, ind=""):
+        if e[0] == "lit":
+            ty = self.norm_ty(e[2] or want)
+            if ty is None:
+                raise TranslateError(f"cannot type literal {e[1]}")
+            if self.is_word(ty):
+                if e[1] >= 2 ** INT_TYPES[ty]:
+                    raise TranslateError("literal out of range")
+                return V(hex(e[1]) if e[1] > 9 else str(e[1]), ty, True)
+        return super().ex(e, st, want, out, ind)
+
+    def binop(self, op, l, r, st, want, out, ind, hint=None):
+        if op in ("&", "|", "^"):
+            lv, rv = self.operands(l, r, st, want, out, ind)
+            if not self.is_word(lv.ty):
+                raise TranslateError(f"operator {op} on {lv.ty}")
+            sym = {"^": "^^^", "|": "|||", "&": "&&&"}[op]
+            return V(f"{lv.p()} {sym} {rv.p()}", lv.ty)
+        if op == ">>":
+            lv = self.ex(l, st, want, out, ind)
+            n = self.const_int(r, st)
+            if not self.is_word(lv.ty) or not 0 <= n < INT_TYPES[lv.ty]:
+                raise TranslateError("shift")
+            return V(f"{lv.p()} >>> {n}", lv.ty)
+        raise TranslateError(f"operator {op} is outside the nat mode of ktx_misc")
+
+    def cast(self, v, to):
+        if self.is_word(v.ty) and self.is_word(to) and INT_TYPES[to] >= INT_TYPES[v.ty]:
+            return V(v.t, to, v.at)
+        raise TranslateError(f"cast {v.ty} -> {to} in nat mode")
+
+    def method(self, e, st, want, out, ind):
+        raise TranslateError(f"method {e[2]} in nat mode")
+
+
+class NatOptTr(Tr):
+    """mode="natopt" (monadic): unsigned integers as `Nat`, every checked `+ - * / %` a bind in the Option monad
+    (`int_ops[(op, width)]`: e.g. add32 / mul64 / subU / remU), `>>` = `>>>`, widening casts the identity, narrowing `% 2 ^ w`"""
+
+    def ex(self, e, st, want=None, out=None, ind=""):
+        if e[0] == "lit":
+            ty = self.norm_ty(e[2] or want)
+            if ty is None:
+                raise TranslateError(f"cannot type literal {e[1]}")
+            if self.is_word(ty) or ty == "usize":
+                if e[1] >= 2 ** INT_TYPES[ty]:
+                    raise TranslateError("literal out of range")
+                return V(str(e[1]), ty, True)
+        return super().ex(e, st, want, out, ind)
+
+    def tmp_name(self, st):
+        while True:
+            self.tmpn += 1
+            n = f"t{self.tmpn}"
+            if not self.captures(n, st, "\0"):
+                self.extra_used.add(n)
+                return n
+
+    def binop(self, op, l, r, st, want, out, ind, hint=None):
+        if op in ("+", "-", "*", "/", "%"):
+            lv, rv = self.operands(l, r, st, want, out, ind)
+            if not self.is_word(lv.ty):
+                raise TranslateError(f"operator {op} on {lv.ty}")
+            fn = self.k.int_ops.get((op, INT_TYPES[lv.ty]))
+            if fn is None:
+                raise TranslateError(f"no checked `{op}` of width {INT_TYPES[lv.ty]} declared")
+            name = hint or self.tmp_name(st)
+            self._last_hinted = hint
+            self.emit_let(out, ind, name, f"{fn} {lv.p()} {rv.p()}", bind=True)
+            return V(name, lv.ty, True)
+        if op == ">>":
+            lv = self.ex(l, st, want, out, ind)
+            n = self.const_int(r, st)
+            if not self.is_word(lv.ty) or not 0 <= n < INT_TYPES[lv.ty]:
+                raise TranslateError("shift")
+            return V(f"{lv.p()} >>> {n}", lv.ty)
+        if op in ("==", "!=", "<", "<=", ">", ">=", "&&", "||"):
+            return super().binop(op, l, r, st, want, out, ind, hint)
+        raise TranslateError(f"operator {op} is outside the natopt mode of ktx_misc")
+
+    def cast(self, v, to):
+        if self.is_word(v.ty) and self.is_word(to):
+            if INT_TYPES[to] >= INT_TYPES[v.ty]:
+                return V(v.t, to, v.at)
+            return V(f"{v.p()} % 2 ^ {INT_TYPES[to]}", to)
+        raise TranslateError(f"cast {v.ty} -> {to} in natopt mode")
+
+    def method(self, e, st, want, out, ind):
+        raise TranslateError(f"method {e[2]} in natopt mode")
+
+
 class IntTr(Tr):
     """signed limbs as `Int`; see module docstring"""
 
@@ -2014,6 +2128,8 @@ def default_result(tr, st, ret, out, ind):
 
 def translate(k: MK):
     src = read_src(k.file)
+    if k.consts_fn is not None:
+        k.consts = dict(k.consts_fn())
     if k.kind == "macro":
         params, body = find_macro(src, k.fn)
         body = macro_subst(body, params, [p for p, _ in params])
@@ -2025,7 +2141,7 @@ def translate(k: MK):
         stmts = k.select(stmts)
     if k.stmt_filter:
         stmts = [s for i, s in enumerate(stmts) if k.stmt_filter(i, s)]
-    tr = (k.tr_class or (IntTr if k.mode == "int" else Tr))(k, src, btab)
+    tr = (k.tr_class or (IntTr if k.mode == "int" else NatTr if k.mode == "nat" else NatOptTr if k.mode == "natopt" else Tr))(k, src, btab)
     tr.decl_ty = {}
     st = St()
     for key, (val, ty) in k.env.items():
@@ -2040,7 +2156,7 @@ def translate(k: MK):
         else:
             text = default_result(tr, st2, ret, out2, ind2)
         if k.monadic and not text.lstrip().startswith(("pure", "none", "some", ".ok", ".error", "return")) and not getattr(k, "raw_result", False):
-            text = f"pure {text}"
+            text = f"pure {text}" if re.fullmatch(r"[\w.']+|[⟨(\[#].*[⟩)\]]", text) else f"pure ({text})"
         out2.append(f"{ind2}{text}")
     tr.seq(stmts, 0, st, out, ind, fin)
     note = f" [{tr.n_checked} checked word op(s) rendered wrapping: overflow-freedom is a separate theorem]" if tr.n_checked else ""
